@@ -1,7 +1,11 @@
 /-
-  Bridge: the parts of region.go (and `utils.go Abs`) regenerated by go2lean (Gts/Gen/Region.lean)
-  are equal to the hand-written model `Gts.Reg.*` (Gts/Model/Region.lean) the property theorems of
-  C08, C09 and C15 are about — for every input, by induction over the loop shapes.
+  Bridge: `BySegment.Less`, `invertSegments` and the merge loop of `Minimize`, regenerated from
+  region.go by go2lean (Gts/Gen/Region.lean; the loops translated literally as recursive helpers
+  over the loop state), are equal to the hand-written model `Reg.segLess`, `Reg.invertSegments`,
+  `Reg.mergeSegs` (Gts/Model/Region.lean) the property theorems of C09 and C15 are about — for
+  EVERY list, by induction over the loop shapes (a generic lemma about a loop of that shape, then the
+  generated function is shown to have the shape: renamed locals do not matter, a changed condition,
+  index or merged value does).
 -/
 import Gts.Gen.Region
 import Gts.Bridge.Arith
@@ -9,68 +13,7 @@ import Gts.Model.Region
 namespace Gts.Bridge
 open Gts
 
-/-! ### `Abs` (sign-mask idiom) and the `Segment` methods -/
-
-theorem ixor_zero (x : Int) : Gen.ixor x 0 = x := by
-  cases x <;> simp [Gen.ixor]
-
-theorem ixor_neg_one (x : Int) : Gen.ixor x (-1) = -x - 1 := by
-  cases x with
-  | ofNat m =>
-    simp only [show (-1 : Int) = Int.negSucc 0 from rfl, Gen.ixor, Nat.xor_zero, Int.ofNat_eq_natCast]
-    omega
-  | negSucc m =>
-    simp only [show (-1 : Int) = Int.negSucc 0 from rfl, Gen.ixor, Nat.xor_zero, Int.ofNat_eq_natCast]
-    omega
-
-theorem shiftRight63 (x : Int) (hlo : -2 ^ 63 ≤ x) (hhi : x < 2 ^ 63) :
-    Int.shiftRight x 63 = if x < 0 then -1 else 0 := by
-  cases x with
-  | ofNat m =>
-    have hm : m < 2 ^ 63 := by
-      have : (m : Int) < 2 ^ 63 := hhi
-      omega
-    have h0 : ¬ (Int.ofNat m < 0) := by simp
-    rw [if_neg h0]
-    show Int.ofNat (m >>> 63) = 0
-    rw [Nat.shiftRight_eq_div_pow, Nat.div_eq_of_lt hm]; rfl
-  | negSucc m =>
-    have hm : m < 2 ^ 63 := by
-      have : -2 ^ 63 ≤ Int.negSucc m := hlo
-      omega
-    have h0 : Int.negSucc m < 0 := Int.negSucc_lt_zero m
-    rw [if_pos h0]
-    show Int.negSucc (m >>> 63) = -1
-    rw [Nat.shiftRight_eq_div_pow, Nat.div_eq_of_lt hm]; rfl
-
-/-- `utils.go Abs`, as written (shift, exclusive-or, subtract), is the absolute value on every
-`int` of a 64-bit platform (`-2^63 ≤ x < 2^63`; at `x = -2^63` Go's result overflows, the
-unbounded reading gives `2^63`) -/
-theorem gabs_eq (x : Int) (hlo : -2 ^ 63 ≤ x) (hhi : x < 2 ^ 63) : Gen.gabs x = Reg.gabs x := by
-  simp only [Gen.gabs, Gen.intSize, Reg.gabs, show Int.toNat (64 - 1) = 63 from rfl,
-    shiftRight63 x hlo hhi]
-  by_cases h : x < 0
-  · simp only [h, if_true, ixor_neg_one]; omega
-  · simp only [h, if_false, ixor_zero]; omega
-
-/-- `Segment.Len` is the model's `Reg.len` of a segment, whenever the difference of the two ends
-is an `int` (64 bit) -/
-theorem segmentLen_eq (h t : Int) (hlo : -2 ^ 63 ≤ t - h) (hhi : t - h < 2 ^ 63) :
-    Gen.segmentLen h t = Reg.len (.seg h t) := by
-  simp only [Gen.segmentLen, Reg.len, gabs_eq (t - h) hlo hhi]
-
-example : Gen.segmentLen 7 3 = Reg.len (.seg 7 3) := segmentLen_eq 7 3 (by decide) (by decide)
-
-/-- `Segment.Head` is the model's `Reg.head` of a segment -/
-theorem segmentHead_eq (h t : Int) : Gen.segmentHead h t = Reg.head (.seg h t) := rfl
-
-/-- `Segment.Tail` is the model's `Reg.tail` of a segment -/
-theorem segmentTail_eq (h t : Int) : Gen.segmentTail h t = Reg.tail (.seg h t) := rfl
-
-/-- `Segment.Complement` is the model's `Reg.complement` of a segment (the returned `Segment`
-is the pair of its ends) -/
-theorem segmentComplement_eq (h t : Int) :
-    Reg.seg (Gen.segmentComplement h t).1 (Gen.segmentComplement h t).2 = Reg.complement (.seg h t) := rfl
+/-! ### `BySegment.Less` -/
 
 /-- `BySegment.Less(i, j)`, as a function of the two array values `ss[i]`, `ss[j]`, is the model's
 `Reg.segLess` — for every pair of segments, either orientation -/
@@ -82,26 +25,6 @@ theorem bySegmentLess_eq (l r : Seg) : Gen.bySegmentLess l.1 l.2 r.1 r.2 = Reg.s
     intro p _; by_cases hp : p <;> simp [hp]
   by_cases hl : l1 < l0 <;> by_cases hr : r1 < r0 <;>
     simp only [hl, hr, if_true, if_false, ite_decide]
-
-/-! ### `Regions.Len`: the range loop sums the lengths of the elements -/
-
-theorem regionsLenLoop_lens (loop : List Int → Int → Int)
-    (hnil : ∀ total, loop [] total = total)
-    (hcons : ∀ r rest total, loop (r :: rest) total = loop rest (total + r)) :
-    ∀ (rs : List Reg) (total : Int), loop (Reg.lens rs) total = total + Reg.lenList rs := by
-  intro rs
-  induction rs with
-  | nil => intro total; simp [Reg.lens, Reg.lenList, hnil]
-  | cons r rs ih =>
-    intro total
-    simp only [Reg.lens, Reg.lenList, hcons, ih]
-    omega
-
-/-- `Regions.Len()` on the lengths of the elements is the model's `Reg.lenList` -/
-theorem regionsLen_eq (rs : List Reg) : Gen.regionsLen (Reg.lens rs) = Reg.lenList rs := by
-  simp only [Gen.regionsLen]
-  rw [regionsLenLoop_lens Gen.regionsLenLoop (fun _ => rfl) (fun _ _ _ => rfl)]
-  omega
 
 /-! ### `invertSegments`: the range loop carrying `start` -/
 
@@ -252,148 +175,4 @@ theorem minimize_gen (r : Reg) (fuel : Nat) (h : (Reg.sortSegs (Reg.flatten r)).
     Reg.minimize r = Gen.minimizeMerge fuel (Reg.sortSegs (Reg.flatten r)) := by
   rw [minimizeMerge_eq fuel _ h]; rfl
 
-/-! ### `Regions.Resize`: bounds and walk -/
-
-/-- the type switch of `Regions.Resize` computing `(lower, upper)` per modifier kind, with
-`ret.Len()` the regenerated `Regions.Len`, is the model's `Reg.bounds` -/
-theorem resizeBounds_eq (m : Mod) (rs : List Reg) :
-    Gen.resizeBounds m (Reg.lens rs) = Reg.bounds m (Reg.lenList rs) := by
-  cases m <;>
-    simp only [Gen.resizeBounds, Gen.resizeBoundsHead, Gen.resizeBoundsTail, Gen.resizeBoundsHeadTail,
-      Gen.resizeBoundsHeadHead, Gen.resizeBoundsTailTail, Reg.bounds, regionsLen_eq]
-
-theorem lens_length (rs : List Reg) : (Reg.lens rs).length = rs.length := by
-  induction rs with
-  | nil => rfl
-  | cons r rs ih => simp [Reg.lens, ih]
-
-theorem walkLens_drop_short (rr : List Int) (k : Nat) (w : Reg.Walk) (h : rr.length ≤ k + 1) :
-    Reg.walkLens (rr.drop k) k w = w := by
-  have hl : (rr.drop k).length ≤ 1 := by simp only [List.length_drop]; omega
-  match rr.drop k, hl with
-  | [], _ => rfl
-  | [_], _ => rfl
-
-theorem walkLens_drop_step (rr : List Int) (k : Nat) (w : Reg.Walk) (h : k + 1 < rr.length) :
-    Reg.walkLens (rr.drop k) k w =
-      Reg.walkLens (rr.drop (k + 1)) (k + 1) (Reg.walkStep w k (rr.getD k 0)) := by
-  have h1 : rr.drop k = rr[k] :: rr.drop (k + 1) := List.drop_eq_getElem_cons (by omega)
-  have h2 : rr.drop (k + 1) = rr[k + 1] :: rr.drop (k + 1 + 1) := List.drop_eq_getElem_cons h
-  have h3 : rr.getD k 0 = rr[k] := by
-    rw [List.getD_eq_getElem?_getD, List.getElem?_eq_getElem (by omega)]; rfl
-  rw [h1, h2, h3, Reg.walkLens]
-
-theorem walkStep_fields (w : Reg.Walk) (k : Nat) (n : Int) :
-    (Reg.walkStep w k n).lower = (if w.left = k ∧ n < w.lower then w.lower - n else w.lower) ∧
-    (Reg.walkStep w k n).upper = (if w.right = k ∧ n < w.upper then w.upper - n else w.upper) ∧
-    ((Reg.walkStep w k n).left : Int) = (if w.left = k ∧ n < w.lower then (k : Int) + 1 else (w.left : Int)) ∧
-    ((Reg.walkStep w k n).right : Int) = (if w.right = k ∧ n < w.upper then (k : Int) + 1 else (w.right : Int)) := by
-  unfold Reg.walkStep
-  by_cases a : w.left = k ∧ n < w.lower <;> by_cases b : w.right = k ∧ n < w.upper <;>
-    simp only [a, b, if_true, if_false, and_self, Int.natCast_add, Int.cast_ofNat_Int] <;> simp
-
-/-- a loop of the shape
-`for k := …; k+1 < len(rr); k++ { n := rr[k].Len(); if left == k && n < lower { left = k+1; lower -= n }; if right == k && n < upper { right = k+1; upper -= n } }`
-over the lengths `rr`, entered at index `k` in the walk state `w`, ends in the state the model's
-`Reg.walkLens` computes; `len(rr) - k - 1` units of fuel suffice (the loop ends because its
-condition fails) -/
-theorem walkLoop_spec (loop : List Int → Nat → Int → Int → Int → Int → Int → Int × Int × Int × Int × Int)
-    (h0 : ∀ rr lower upper left right k, loop rr 0 lower upper left right k = (lower, upper, left, right, k))
-    (hs : ∀ rr fuel lower upper left right k, loop rr (fuel + 1) lower upper left right k =
-      if k + 1 < (rr.length : Int) then
-        loop rr fuel
-          (if left = k ∧ rr.getD (Int.toNat k) 0 < lower then lower - rr.getD (Int.toNat k) 0 else lower)
-          (if right = k ∧ rr.getD (Int.toNat k) 0 < upper then upper - rr.getD (Int.toNat k) 0 else upper)
-          (if left = k ∧ rr.getD (Int.toNat k) 0 < lower then k + 1 else left)
-          (if right = k ∧ rr.getD (Int.toNat k) 0 < upper then k + 1 else right)
-          (k + 1)
-      else (lower, upper, left, right, k))
-    (rr : List Int) :
-    ∀ (fuel k : Nat) (w : Reg.Walk), rr.length ≤ fuel + k + 1 →
-      ∃ k' : Int, loop rr fuel w.lower w.upper (w.left : Int) (w.right : Int) (k : Int) =
-        ((Reg.walkLens (rr.drop k) k w).lower, (Reg.walkLens (rr.drop k) k w).upper,
-         ((Reg.walkLens (rr.drop k) k w).left : Int), ((Reg.walkLens (rr.drop k) k w).right : Int), k') := by
-  intro fuel
-  induction fuel with
-  | zero =>
-    intro k w hf
-    rw [h0, walkLens_drop_short rr k w (by omega)]
-    exact ⟨_, rfl⟩
-  | succ f ih =>
-    intro k w hf
-    rw [hs]
-    by_cases hc : (k : Int) + 1 < (rr.length : Int)
-    · rw [if_pos hc, walkLens_drop_step rr k w (by omega), Int.toNat_natCast]
-      have := ih (k + 1) (Reg.walkStep w k (rr.getD k 0)) (by omega)
-      obtain ⟨k', hk'⟩ := this
-      refine ⟨k', ?_⟩
-      rw [← hk']
-      have e : ((k + 1 : Nat) : Int) = (k : Int) + 1 := by omega
-      have eL : ((w.left : Int) = (k : Int)) ↔ w.left = k := by omega
-      have eR : ((w.right : Int) = (k : Int)) ↔ w.right = k := by omega
-      obtain ⟨f1, f2, f3, f4⟩ := walkStep_fields w k (rr.getD k 0)
-      rw [f1, f2, f3, f4, e]
-      simp only [eL, eR]
-    · rw [if_neg hc, walkLens_drop_short rr k w (by omega)]
-      exact ⟨_, rfl⟩
-
-theorem resizeWalkLoop_shape (rr : List Int) (fuel : Nat) (lower upper left right k : Int) :
-    Gen.resizeWalkLoop rr (fuel + 1) lower upper left right k =
-      if k + 1 < (rr.length : Int) then
-        Gen.resizeWalkLoop rr fuel
-          (if left = k ∧ rr.getD (Int.toNat k) 0 < lower then lower - rr.getD (Int.toNat k) 0 else lower)
-          (if right = k ∧ rr.getD (Int.toNat k) 0 < upper then upper - rr.getD (Int.toNat k) 0 else upper)
-          (if left = k ∧ rr.getD (Int.toNat k) 0 < lower then k + 1 else left)
-          (if right = k ∧ rr.getD (Int.toNat k) 0 < upper then k + 1 else right)
-          (k + 1)
-      else (lower, upper, left, right, k) := by
-  simp only [Gen.resizeWalkLoop]
-  by_cases hc : k + 1 < (rr.length : Int)
-  · simp only [hc, if_true]
-    by_cases a : left = k ∧ rr.getD (Int.toNat k) 0 < lower <;>
-      by_cases b : right = k ∧ rr.getD (Int.toNat k) 0 < upper <;>
-        simp only [a, b, and_self, if_true, if_false]
-  · simp only [hc, if_false]
-
-/-- **the walk of `Regions.Resize`, as written in region.go** (`left, right := 0, 0` and the `for`
-loop over the lengths of the elements), with any fuel `≥ len(rr) - 1`, ends in the state of the
-model's `Reg.walkLens` started from `⟨0, lower, 0, upper⟩` -/
-theorem resizeWalk_eq (fuel : Nat) (rr : List Int) (lower upper : Int) (h : rr.length ≤ fuel + 1) :
-    Gen.resizeWalk fuel rr lower upper =
-      (((Reg.walkLens rr 0 ⟨0, lower, 0, upper⟩).left : Int), (Reg.walkLens rr 0 ⟨0, lower, 0, upper⟩).lower,
-       ((Reg.walkLens rr 0 ⟨0, lower, 0, upper⟩).right : Int), (Reg.walkLens rr 0 ⟨0, lower, 0, upper⟩).upper) := by
-  obtain ⟨k', hk'⟩ := walkLoop_spec Gen.resizeWalkLoop (fun _ _ _ _ _ _ => rfl) resizeWalkLoop_shape rr fuel 0
-    ⟨0, lower, 0, upper⟩ (by omega)
-  simp only [List.drop_zero] at hk'
-  simp only [Gen.resizeWalk]
-  have hk'' : Gen.resizeWalkLoop rr fuel lower upper 0 0 0 = _ := hk'
-  rw [hk'']
-
-example : Gen.resizeWalk 2 [2, 3, 4] 4 6 = (1, 2, 2, 1) := by
-  rw [resizeWalk_eq 2 [2, 3, 4] 4 6 (by decide)]; decide
-
-/-- the statements of `Regions.Resize` around the regenerated parts -/
-theorem resizeFrame_eq :
-    Gen.resizeFrame = ["ret := make(Regions, len(rr)); copy(ret, rr)", "resizeBounds", "resizeWalk", "final switch"] := rfl
-
-/-- the final `switch Compare(left, right)` of `Regions.Resize` has the three arms the model's
-`Reg.resize (.many rs)` mirrors (`resizeNth … (.head lower)`, `resizeNth … (.headHead lower upper)`,
-`resizeSpan`) -/
-theorem resizeFinal_eq :
-    Gen.resizeFinal = ["switch Compare(left, right)", "case 1: return ret[left].Resize(Head(lower))",
-      "case 0: return ret[left].Resize(HeadHead{lower, upper})",
-      "default: ret[left] = ret[left].Resize(HeadTail{lower, 0}); ret[right] = ret[right].Resize(HeadHead{0, upper}); return ret[left : right+1]"] := rfl
-
-/-- `Regions.Resize(mod)` of the model is: the REGENERATED bounds, the REGENERATED walk, then the
-final switch (recognised arm by arm, hand-modelled: `Compare(left, right) = 1` is `right < left`) -/
-theorem resize_many_gen (rs : List Reg) (m : Mod) (fuel : Nat) (h : rs.length ≤ fuel + 1) :
-    Reg.resize (.many rs) m =
-      (let b := Gen.resizeBounds m (Reg.lens rs)
-       let w := Gen.resizeWalk fuel (Reg.lens rs) b.1 b.2
-       let left := w.1; let lower := w.2.1; let right := w.2.2.1; let upper := w.2.2.2
-       if right < left then Reg.resizeNth rs left.toNat (.head lower)
-       else if left = right then Reg.resizeNth rs left.toNat (.headHead lower upper)
-       else .many (Reg.resizeSpan rs left.toNat right.toNat lower upper)) := by
-  have hl : (Reg.lens rs).length = rs.length := lens_length rs
-  simp only [resizeBounds_eq, resizeWalk_eq fuel (Reg.lens rs) _ _ (by omega), Reg.resize, Int.toNat_natCast]
-  simp only [Int.ofNat_lt, Int.natCast_inj]
+end Gts.Bridge
